@@ -590,6 +590,10 @@ class WassFam(Fam):
                               memory_size=draw(st.sampled_from(["2G", "1k", "200"])), chunk_size=draw(st.sampled_from([32, 3, 1])))
             else:
                 params.update(n_components=draw(st.integers(1, d)), normalization_power=draw(st.sampled_from([1.0, 1.0, 0.66])))
+            if "reference_size" in params and "n_components" in params:
+                # half of the cases at full rank (the regime in which C02 / C08 assert equality of compressed outputs)
+                full = min(len(train), params["reference_size"] * d)
+                params["n_components"] = min(full, draw(st.sampled_from([full, full, params["n_components"]])))
             return {"family": self.name, "params": params, "train": {"W": train, "V": V}, "test": {"W": test, "V": V}}
         return s()
 
